@@ -184,6 +184,7 @@ class Scen:
         self.exp_resp = []
         self.phase = "first"
         self.keep = None
+        self.client_kept = False
         self.task = loop.create_task(self.client())
 
     # ---- server application
@@ -275,6 +276,8 @@ class Scen:
         if opts.get("sock_read"):
             kw["timeout"] = ClientTimeout(total=None, sock_read=opts["sock_read"])
         await self.one(method, url, kw)
+        # the client's own decision, taken when the exchange ended: did it keep the connection for reuse?
+        self.client_kept = any(proto.is_connected() for conns in self.connector._conns.values() for (proto, _t) in conns)
         self.phase = "settle"
         self.gate = self.loop.create_future()
         await self.gate
@@ -334,8 +337,11 @@ class Scen:
     def _second(self):
         # keep-alive decisions of both ends at rest
         ct, st = self.links[0]
-        # pooled = an idle entry the pool would still hand out (`_get` skips entries whose transport is gone)
-        pooled = any(proto.is_connected() for conns in self.connector._conns.values() for (proto, _t) in conns)
+        # pooled = the client decided to keep the connection.  If the server closed it all the same, the client
+        # only learns that from the FIN - a disagreement, unless the schedule let time pass (then a server-side
+        # timer such as the lingering timeout may have expired with the client's bytes still in transit)
+        pooled = self.client_kept and not (self.loop.time() > 0 and not any(
+            proto.is_connected() for conns in self.connector._conns.values() for (proto, _t) in conns))
         self.keep = (pooled, not st.is_closing() and not st._lost_called, not ct.is_closing())
         self.gate.set_result(None)
 
